@@ -553,6 +553,10 @@ namespace bxdecay0 {
                                    + " >= Emax=" + std::to_string(_grab_bb_params_().ebb2) + ") (MeV) !");
           }
         } else {
+          if (!std::isnan(_energy_min_) || !std::isnan(_energy_max_)) {
+            throw std::logic_error("bxdecay0::decay0_generator::_init_: DBD mode '"
+                                   + dbd_mode_label(_decay_dbd_mode_) + "' does not support an energy range !");
+          }
           if (is_debug()) {
             std::cerr << "[debug] decay0_generator::_init_: "
                       << "Not a DBD energy range mode." << std::endl;
